@@ -79,6 +79,8 @@ def alias_probe(rep):
     finally:
         shutil.rmtree(d, ignore_errors=True)
 
+    from vlib import probes
+    probes.run(rep, "C04")
 
 def replay(rep, path):
     import json
